@@ -56,7 +56,9 @@ def run_config(cfg):
         env.reset(fold="f" if fold else "training-set")
         steps = [t if isinstance(t, datetime) else t.to_pydatetime() if hasattr(t, "to_pydatetime") else t for t in env._transmitter._steps]
         first, last = steps[0], steps[-1]
-        done = False
+        # a fold of a single timestep is exhausted by reset itself (the stream runs out while the next batch is fetched): the episode
+        # is then already over and C09 says every step is refused; so the loop starts from the environment's own flag
+        done = bool(env._done)
         while not done:
             _, _, done, _ = env.step(np.array([0.3]))
         log = list(rec.log)
